@@ -4,7 +4,8 @@ from .. import gen_idl, kfront
 from ..emit import *
 
 TRUSTED = ['ANTLR lexer/parser: recognition of the text into the parse tree the model starts from',
-           'pydantic model construction (copies of lists, Identifier coercion)', 'mistune (comment commands are not part of this model)']
+           'pydantic model construction (copies of lists, Identifier coercion)',
+           'mistune block/inline parsing for comments outside the plain class of K-commands (lists, quotes, headings, fences, HTML, inline mark-up inside command texts)']
 ASSUMPTIONS = ['model = Idl/Visitor.v on the dumped parse tree; K-front compares the complete AST (kinds, names, namespaces, members in order, '
                'modifiers, throws, deriving, comments, targets, every position) with the real visitor on the same tree',
                'oracle = an independent Python reading of the abstract program the text was printed from (tools/pdv/gen_idl.py)']
@@ -141,6 +142,153 @@ def walk_nodes(nodes):
             yield from walk_nodes(n['children'])
 
 
+
+# ---------------------------------------------------------------- documentation commands (@deprecated / @param, both spellings)
+CMD_WORDS = ['use', 'other', 'the', 'value', 'x < y', 'a/b', 'two  spaces', 'since 2.0', "don't", '100%']
+
+
+def add_commands(r, prog, bare_param=True):
+    """append command lines to the comments of declarations and members (creating the comment when there is none)"""
+    def cmd_lines(param_names):
+        out = []
+        for _ in range(r.randint(1, 3)):
+            sp = r.choice(['@', '\\'])
+            x = r.random()
+            if x < 0.35:
+                out.append(sp + 'deprecated' + r.choice(['', '', ' ' + ' '.join(r.sample(CMD_WORDS, r.randint(1, 3))), '  ' + r.choice(CMD_WORDS), 'x', '\t' + r.choice(CMD_WORDS)]))
+            elif x < 0.45:
+                out.append(r.choice(['see @deprecated inside', 'x \\deprecated y', 'deprecated', 'email@deprecated.org']))
+            elif x < 0.8:
+                nm = r.choice(param_names + ['nosuch']) if param_names else 'nosuch'
+                out.append(sp + 'param' + r.choice([' ', '  ', '\t']) + nm + r.choice(['', ' ' + ' '.join(r.sample(CMD_WORDS, r.randint(1, 3))), '   ' + r.choice(CMD_WORDS)]))
+            elif x < 0.86 and bare_param:
+                out.append(sp + r.choice(['param', 'parameter foo', 'params']))
+            else:
+                out.append(sp + r.choice(['returns the result', 'throws err when bad', 'returns', 'throws']))
+        return out
+    def touch(node, param_names=()):
+        if r.random() < 0.45:
+            node['comment'] = list(node.get('comment') or ([] if r.random() < 0.5 else ['plain words'])) + cmd_lines(list(param_names))
+    for f in prog['files'].values():
+        for d, ns in gen_idl.walk_items(f['items']):
+            touch(d)
+            for key in ('items', 'flags', 'fields', 'codes'):
+                for m in d.get(key, []):
+                    touch(m, [p['name'] for p in (m.get('params') or [])] if key == 'codes' else ())
+            for m in d.get('members', []):
+                touch(m, [p['name'] for p in m.get('params', [])] if m['k'] == 'method' else ())
+
+
+def ref_cmd(name, line):
+    """reference reading of one (stripped) comment line: the text of command `name`, or None"""
+    if not line or line[0] not in '@\\' or not line[1:].startswith(name):
+        return None
+    rest = line[1 + len(name):]
+    if rest and rest[0] in ' \t\v\f':
+        return rest.lstrip(' \t\v\f')
+    return ''
+
+
+def ref_deprecated(comment):
+    dep = False
+    for line in (comment or '').split('\n'):
+        t = ref_cmd('deprecated', line)
+        if t is not None:
+            dep = t if t else True
+    return dep
+
+
+def ref_params(comment, names):
+    docs = [None] * len(names)
+    for line in (comment or '').split('\n'):
+        t = ref_cmd('param', line)
+        if not t:
+            continue
+        w = t.split()[0]
+        d = t[len(w):].lstrip(' \t\v\f')
+        if d and w in names:
+            docs[names.index(w)] = d
+    return docs
+
+
+def commented_nodes(ast):
+    """(node, parameter list or None) for every node of the observed AST that carries deprecated/comment"""
+    for n in walk_nodes(ast):
+        k = n['k']
+        if k == 'Namespace':
+            continue
+        yield n, None
+        # interface properties (`property x: T;`, undocumented, used by no generator) are not registered as field declarations by the
+        # visitor: documentation commands are not evaluated for them - left out here, noted in DESIGN.md
+        for key in ('items', 'flags', 'fields'):
+            for m in n.get(key, []):
+                yield m, None
+        for m in n.get('methods', []):
+            yield m, m['params']
+        for c_ in n.get('codes', []):
+            yield c_, c_['params']
+
+
+CMD_PRE = '''From Coq Require Import List String Ascii Bool Arith.
+From PDV Require Import Lib.StrUtil Lang.Comment Idl.CommentCmd.
+Import ListNotations. Open Scope string_scope. Open Scope list_scope.
+Definition dep_eqb (a b : dep) : bool := match a, b with DNo, DNo | DYes, DYes => true | DMsg x, DMsg y => String.eqb x y | _, _ => false end.
+Definition ostr_eqb (a b : option string) : bool := match a, b with None, None => true | Some x, Some y => String.eqb x y | _, _ => false end.
+Fixpoint docs_eqb (a : list (string * option string)) (b : list (option string)) : bool :=
+  match a, b with [] , [] => true | (_, x) :: r, y :: s => ostr_eqb x y && docs_eqb r s | _, _ => false end.
+Definition ok (c : string * dep * list string * list (option string)) : bool :=
+  let '(cm, d, names, docs) := c in dep_eqb (deprecated_of cm) d && docs_eqb (params_of cm names) docs.
+Fixpoint bad_idx (i : nat) (cs : list (string * dep * list string * list (option string))) : list nat :=
+  match cs with [] => [] | c :: t => if ok c then bad_idx (S i) t else i :: bad_idx (S i) t end.
+'''
+
+
+def commands_corr(ctx, cases, obs):
+    from .. import coqtool
+    rows, keep = [], []
+    dist = {'nodes_with_comment': 0, 'deprecated_true': 0, 'deprecated_message': 0, 'backslash_spelling': 0, 'param_docs': 0, 'bare_param': 0}
+    for c, o in zip(cases, obs):
+        if o['outcome'] != 'ok':
+            continue
+        for node, params in commented_nodes(o['ast']):
+            cm = node.get('comment')
+            if not cm:
+                if node.get('deprecated') not in (False, None):
+                    ctx.add_violation({'kind': 'deprecation-differs-from-source'}, '%s is deprecated without a comment' % node['name'], {'files': c['files'], 'root': c['root']})
+                continue
+            dist['nodes_with_comment'] += 1
+            dep = node.get('deprecated')
+            names = [p_['name'] for p_ in params] if params is not None else []
+            docs = [p_.get('comment') for p_ in params] if params is not None else []
+            dist['deprecated_true'] += dep is True; dist['deprecated_message'] += isinstance(dep, str)
+            dist['backslash_spelling'] += any(l.startswith('\\') for l in cm.split('\n'))
+            dist['param_docs'] += sum(1 for d in docs if d); dist['bare_param'] += any(ref_cmd('param', l) == '' for l in cm.split('\n'))
+            want_dep = ref_deprecated(cm)
+            if want_dep != dep:
+                ctx.add_violation({'kind': 'deprecation-differs-from-source', 'backslash': any(l.startswith('\\deprecated') for l in cm.split('\n'))},
+                                  'comment %r of %s: deprecated is %r, the documented commands give %r' % (cm, node['name'], dep, want_dep),
+                                  {'files': c['files'], 'root': c['root'], 'node': node['name']})
+            if params is not None and ref_params(cm, names) != docs:
+                ctx.add_violation({'kind': 'param-doc-differs-from-source'},
+                                  'comment %r of %s: parameter docs are %r, the documented commands give %r' % (cm, node['name'], docs, ref_params(cm, names)),
+                                  {'files': c['files'], 'root': c['root'], 'node': node['name']})
+            cd = 'DNo' if dep in (False, None) else 'DYes' if dep is True else '(DMsg %s)' % cstr(dep)
+            rows.append('(%s, %s, %s, %s)' % (cstr(cm), cd, clist([cstr(x) for x in names]), clist([copt(d, cstr) for d in docs])))
+            keep.append({'comment': cm, 'deprecated': dep, 'params': names, 'docs': docs, 'files': c['files']})
+    mism = []
+    for s0 in range(0, len(rows), 400):
+        body = CMD_PRE + 'Definition cases := %s.\nEval vm_compute in (bad_idx 0 cases).\n' % clist(rows[s0:s0 + 400])
+        rc, out, err = coqtool.run_cases('c03cmd', body)
+        bad = coqtool.parse_nat_list(out) if rc == 0 else None
+        if bad is None:
+            ctx.broken.append({'kind': 'correspondence', 'name': 'K-commands (coqc failed)', 'detail': (err + out)[-1500:]}); return
+        mism += [keep[s0 + i] for i in bad]
+    ctx.add_corr('K-commands', len(rows), len({k['comment'] for k in keep}), mism, keep[:1], dist,
+                 'every commented declaration / item / flag / field / method / error code / property of the accepted programs: deprecated state and '
+                 'parameter documentation delivered by the real front end vs Idl/CommentCmd.v on the comment text (command lines in both documented '
+                 "spellings '@' and backslash, with and without text, look-alikes, @param for existing and missing names, bare @param, @returns/@throws)")
+
+
 def flag_programs():
     """every flag sequence of length <= 3 over a 7-symbol alphabet, on interfaces, records and functions"""
     alpha = ['+cpp', '-cpp', '+java', '-java', '+any', '+yaml', '-objc']
@@ -169,6 +317,8 @@ def run(ctx):
         dd = r.choice([[], [], ['eq'], ['eq', 'ord']])
         g = gen_idl.Gen(r, max_decls=r.choice([3, 6, 10]), p_comment=0.35, multi_file=0.25, default_deriving=dd)
         p = g.program()
+        if i % 2 == 0:
+            add_commands(r, p)
         mode = 'canon' if i % 3 == 0 else 'random'
         cases.append({'files': gen_idl.print_program(p, r, mode), 'root': p['root'],
                       'options': {'generate': dict(FULL, default_deriving=dd)}})
@@ -218,6 +368,7 @@ def run(ctx):
                                   'position %s of %s %s does not delimit its text' % (node.get('pos'), node['k'], node['name']),
                                   {'files': c['files'], 'root': c['root']})
                 break
+    commands_corr(ctx, cases[:n], obs[:n])
     for j, i in relayout:
         a, b = obs[i], obs[j]
         if a['outcome'] == 'ok' and b['outcome'] == 'ok':
